@@ -560,7 +560,10 @@ impl Terminal for UnixTerminal {
         while let Some(event) = self.poll(None)? {
             match event {
                 TerminalEvent::DeviceAttrs(..) => {
-                    self.events_queue.extend(queue);
+                    // events set aside here arrived before anything that is still queued
+                    for event in queue.into_iter().rev() {
+                        self.events_queue.push_front(event);
+                    }
                     return Ok(pos);
                 }
                 TerminalEvent::CursorPosition(term_pos) => {
